@@ -141,70 +141,107 @@ func labelsAreIdents(l []KV) bool {
 
 func rfc3339(ts int64) string { return time.Unix(0, ts).UTC().Format(time.RFC3339Nano) }
 
+// member of a Loki JSON stream object, in the order it was written
+type member struct {
+	kind    string // lbl | ent | other
+	text    string
+	labels  []KV
+	entries []LEntry
+}
+
+func shuffleMembers(r *rand.Rand, ms []member) string {
+	r.Shuffle(len(ms), func(i, j int) { ms[i], ms[j] = ms[j], ms[i] })
+	parts := make([]string, len(ms))
+	for i, m := range ms {
+		parts[i] = m.text
+	}
+	return "{" + strings.Join(parts, ",") + "}"
+}
+
+func lokiLabelMember(r *rand.Rand, l []KV) member {
+	if labelsAreIdents(l) && r.Intn(2) == 0 {
+		return member{kind: "lbl", labels: l, text: `"labels":` + js(Str(lokiLabelString(l)))}
+	}
+	kv := make([]string, len(l))
+	for i, x := range l {
+		kv[i] = js(x.K) + ":" + js(x.V)
+	}
+	return member{kind: "lbl", labels: l, text: `"stream":{` + strings.Join(kv, ",") + "}"}
+}
+
+func lokiEntryMember(r *rand.Rand, es []LEntry) member {
+	// "values" arrays need a line in every entry; "entries" objects take anything
+	allLines := true
+	for _, e := range es {
+		if e.Line == nil {
+			allLines = false
+		}
+	}
+	if allLines && r.Intn(3) != 0 {
+		vs := make([]string, len(es))
+		for i, e := range es {
+			el := []string{`"` + strconv.FormatInt(e.Ts, 10) + `"`, js(*e.Line)}
+			if e.Val != nil {
+				el = append(el, jfloat(*e.Val))
+			} else if r.Intn(4) == 0 {
+				el = append(el, `{"trace_id":"abc"}`) // structured metadata: skipped by the decoder
+			}
+			vs[i] = "[" + strings.Join(el, ",") + "]"
+		}
+		return member{kind: "ent", entries: es, text: `"values":[` + strings.Join(vs, ",") + "]"}
+	}
+	xs := make([]string, len(es))
+	for i, e := range es {
+		key := `"ts"`
+		if r.Intn(2) == 0 {
+			key = `"timestamp"`
+		}
+		var tsv string
+		if e.Ts < 0 || r.Intn(2) == 0 {
+			tsv = `"` + rfc3339(e.Ts) + `"`
+		} else {
+			tsv = `"` + strconv.FormatInt(e.Ts, 10) + `"`
+		}
+		m := []string{key + ":" + tsv}
+		if e.Line != nil {
+			m = append(m, `"line":`+js(*e.Line))
+		}
+		if e.Val != nil {
+			m = append(m, `"value":`+jfloat(*e.Val))
+		}
+		if r.Intn(5) == 0 {
+			m = append(m, `"unknown":[1,{"a":null}]`)
+		}
+		xs[i] = objectOf(r, m)
+	}
+	return member{kind: "ent", entries: es, text: `"entries":[` + strings.Join(xs, ",") + "]"}
+}
+
+// lokiJSON writes every stream as an object whose members come in an order drawn from r; with Split set the
+// labels and/or the entries are spread over two members (a repeated "stream" key, "values" next to "entries").
+// c.members records what was written, in order (the model's member list).
 func lokiJSON(c *Case, r *rand.Rand) []byte {
 	var streams []string
+	c.members = nil
 	for _, s := range c.Body.Loki {
-		var members []string
-		// labels: "stream" object or "labels" string
-		if labelsAreIdents(s.Labels) && r.Intn(2) == 0 {
-			members = append(members, `"labels":`+js(Str(lokiLabelString(s.Labels))))
+		var ms []member
+		if c.Split && len(s.Labels) >= 2 && r.Intn(2) == 0 {
+			k := 1 + r.Intn(len(s.Labels)-1)
+			ms = append(ms, lokiLabelMember(r, s.Labels[:k]), lokiLabelMember(r, s.Labels[k:]))
 		} else {
-			kv := make([]string, len(s.Labels))
-			for i, l := range s.Labels {
-				kv[i] = js(l.K) + ":" + js(l.V)
-			}
-			members = append(members, `"stream":{`+strings.Join(kv, ",")+"}")
+			ms = append(ms, lokiLabelMember(r, s.Labels))
 		}
-		// entries: "values" arrays need a line in every entry; "entries" objects take anything
-		allLines := true
-		for _, e := range s.Entries {
-			if e.Line == nil {
-				allLines = false
-			}
-		}
-		if allLines && r.Intn(3) != 0 {
-			vs := make([]string, len(s.Entries))
-			for i, e := range s.Entries {
-				el := []string{`"` + strconv.FormatInt(e.Ts, 10) + `"`, js(*e.Line)}
-				if e.Val != nil {
-					el = append(el, jfloat(*e.Val))
-				} else if r.Intn(4) == 0 {
-					el = append(el, `{"trace_id":"abc"}`) // structured metadata: skipped by the decoder
-				}
-				vs[i] = "[" + strings.Join(el, ",") + "]"
-			}
-			members = append(members, `"values":[`+strings.Join(vs, ",")+"]")
+		if c.Split && len(s.Entries) >= 2 && r.Intn(2) == 0 {
+			k := 1 + r.Intn(len(s.Entries)-1)
+			ms = append(ms, lokiEntryMember(r, s.Entries[:k]), lokiEntryMember(r, s.Entries[k:]))
 		} else {
-			es := make([]string, len(s.Entries))
-			for i, e := range s.Entries {
-				key := `"ts"`
-				if r.Intn(2) == 0 {
-					key = `"timestamp"`
-				}
-				var tsv string
-				if e.Ts < 0 || r.Intn(2) == 0 {
-					tsv = `"` + rfc3339(e.Ts) + `"`
-				} else {
-					tsv = `"` + strconv.FormatInt(e.Ts, 10) + `"`
-				}
-				m := []string{key + ":" + tsv}
-				if e.Line != nil {
-					m = append(m, `"line":`+js(*e.Line))
-				}
-				if e.Val != nil {
-					m = append(m, `"value":`+jfloat(*e.Val))
-				}
-				if r.Intn(5) == 0 {
-					m = append(m, `"unknown":[1,{"a":null}]`)
-				}
-				es[i] = objectOf(r, m)
-			}
-			members = append(members, `"entries":[`+strings.Join(es, ",")+"]")
+			ms = append(ms, lokiEntryMember(r, s.Entries))
 		}
 		if r.Intn(6) == 0 {
-			members = append(members, `"extra":{"x":[1,2,3]}`)
+			ms = append(ms, member{kind: "other", text: `"extra":{"x":[1,2,3]}`})
 		}
-		streams = append(streams, objectOf(r, members))
+		streams = append(streams, shuffleMembers(r, ms))
+		c.members = append(c.members, ms)
 	}
 	top := []string{`"streams":[` + strings.Join(streams, ",") + "]"}
 	if r.Intn(5) == 0 {
